@@ -184,6 +184,158 @@ def string_forms_oracle(rng):
     return fails
 
 
+# ------------------------------------------------------------------ system losses (two unknowns, per-unknown derivative keys)
+SYS_TERMS = ["initial_condition", "observations"]
+
+
+def sys_problem(rng, kind):
+    nv = 1 if kind == "sys_ode" else 2
+    n = rng.randint(1, 3)
+    cfg = dict(kind=kind, P={k: prand(rng, nv, 2, 3) or {(0,) * nv: 1} for k in "uv"}, theta={k: dy(rng, 1, 3) for k in "uv"}, a=dy(rng, 1, 3), b=dy(rng, -2, 2),
+               q=prand(rng, nv, 2, 2) or {(0,) * nv: 1}, batch=[[dy(rng) for _ in range(nv)] for _ in range(n)],
+               obs={k: dict(inputs=[[dy(rng) for _ in range(nv)] for _ in range(n)], vals=[float(rng.randint(-2, 2)) for _ in range(n)]) for k in "uv"},
+               w=dict(dyn_loss=rng.randint(1, 4) / 2, initial_condition={k: rng.randint(1, 4) / 2 for k in "uv"}, observations={k: rng.randint(1, 4) / 2 for k in "uv"}))
+    if kind == "sys_ode":
+        cfg["ic"] = {k: [dy(rng), float(rng.randint(-2, 2))] for k in "uv"}
+    else:
+        cfg["icp"] = {k: prand(rng, 1, 2, 2) or {(0,): 1} for k in "uv"}
+    return cfg
+
+
+def sys_build(cfg, masks):
+    jax, jnp, np, eqx, jinns = jx()
+    from jinns.parameters import Params, ParamsDict
+    from jinns.data._Batchs import ODEBatch, PDENonStatioBatch
+    ode = cfg["kind"] == "sys_ode"
+    us, nn = {}, {}
+    for k in "uv":
+        us[k] = mk([cfg["P"][k]], "ODE" if ode else "nonstatio_PDE", output_transform=lambda i, o, p: o + p.eq_params["b"])
+        nn[k] = eqx.tree_at(lambda m: m.scale, us[k].init_params(), jnp.array(cfg["theta"][k]))
+    PD = ParamsDict(nn_params=nn, eq_params={"a": jnp.array(cfg["a"]), "b": jnp.array(cfg["b"])})
+    q = cfg["q"]
+    M = lambda bits: Params(nn_params=bool(bits[0]), eq_params={"a": bool(bits[1]), "b": bool(bits[2])})
+    dflt = [True, False, False]
+    obs = {k: {"pinn_in": jnp.array(o["inputs"]), "val": jnp.array(o["vals"])[:, None], "eq_params": {}} for k, o in cfg["obs"].items()}
+    w = cfg["w"]
+    if ode:
+        class Eq(jinns.loss.ODE):
+            def equation(self, t, u_dict, params_dict):
+                return (params_dict.eq_params["a"] * u_dict["u"](t, params_dict.extract_params("u")) + u_dict["v"](t, params_dict.extract_params("v"))
+                        + poly_jax(q, jnp.atleast_1d(t)))
+        dk = {k: jinns.parameters.DerivativeKeysODE(dyn_loss=M(dflt), initial_condition=M(masks[k]["initial_condition"]), observations=M(masks[k]["observations"])) for k in "uv"}
+        lw = jinns.loss.LossWeightsODEDict(dyn_loss=w["dyn_loss"], initial_condition=dict(w["initial_condition"]), observations=dict(w["observations"]))
+        L = jinns.loss.SystemLossODE(u_dict=us, dynamic_loss_dict={"e": Eq()}, derivative_keys_dict=dk, loss_weights=lw,
+                                     initial_condition_dict={k: (t0, jnp.array([u0])) for k, (t0, u0) in cfg["ic"].items()}, params_dict=PD)
+        return PD, L, ODEBatch(temporal_batch=jnp.array(cfg["batch"])[:, 0], obs_batch_dict=obs)
+
+    class Eq(jinns.loss.PDENonStatio):
+        def equation(self, t, x, u_dict, params_dict):
+            return (params_dict.eq_params["a"] * u_dict["u"](t, x, params_dict.extract_params("u")) + u_dict["v"](t, x, params_dict.extract_params("v"))
+                    + poly_jax(q, jnp.concatenate([t, x])))
+    dk = {k: jinns.parameters.DerivativeKeysPDENonStatio(dyn_loss=M(dflt), boundary_loss=M(dflt), norm_loss=M(dflt),
+                                                         initial_condition=M(masks[k]["initial_condition"]), observations=M(masks[k]["observations"])) for k in "uv"}
+    lw = jinns.loss.LossWeightsPDEDict(dyn_loss=w["dyn_loss"], initial_condition=dict(w["initial_condition"]), observations=dict(w["observations"]))
+    icf = {k: (lambda p: (lambda x: poly_jax(p, x)))(cfg["icp"][k]) for k in "uv"}
+    L = jinns.loss.SystemLossPDE(u_dict=us, dynamic_loss_dict={"e": Eq()}, derivative_keys_dict=dk, loss_weights=lw, initial_condition_fun_dict=icf, params_dict=PD)
+    return PD, L, PDENonStatioBatch(times_x_inside_batch=jnp.array(cfg["batch"]), times_x_border_batch=None, obs_batch_dict=obs)
+
+
+def sys_evaluate(cfg, masks):
+    jax, jnp, np, eqx, jinns = jx()
+    PD, L, batch = sys_build(cfg, masks)
+    (v, terms), g = jax.value_and_grad(lambda p: L.evaluate(p, batch), has_aux=True)(PD)
+    return float(v), [float(g.nn_params["u"].scale), float(g.nn_params["v"].scale), float(g.eq_params["a"]), float(g.eq_params["b"])]
+
+
+def sys_case_term(cid, cfg, masks, val, grad):
+    ode = cfg["kind"] == "sys_ode"
+    Pk = lambda k, pt: peval(cfg["P"][k], pt)
+    idx = {"u": 0, "v": 1}
+    row = lambda n1, p1, n2, p2, al, be, ga: f"(mkrow2 {cnat(n1)} {cq(p1)} {cnat(n2)} {cq(p2)} {cq(al)} {cq(be)} {cq(ga)})"
+    spec = lambda bits, w, rows: f"(mks {cbool(bits[0])} {cbool(bits[1])} {cbool(bits[2])} {cq(w)} {clist(rows, str)})"
+    terms = [spec([True, False, False], cfg["w"]["dyn_loss"], [row(0, Pk("u", p), 1, Pk("v", p), 1, 1, peval(cfg["q"], p)) for p in cfg["batch"]])]
+    for k in "uv":
+        if ode:
+            t0, u0 = cfg["ic"][k]
+            rows = [row(0, 0, idx[k], Pk(k, [t0]), 0, 1, -u0)]
+        else:
+            rows = [row(0, 0, idx[k], Pk(k, [0.0] + r[1:]), 0, -1, peval(cfg["icp"][k], r[1:])) for r in cfg["batch"]]
+        terms.append(spec(masks[k]["initial_condition"], cfg["w"]["initial_condition"][k], rows))
+        o = cfg["obs"][k]
+        terms.append(spec(masks[k]["observations"], cfg["w"]["observations"][k], [row(0, 0, idx[k], Pk(k, i), 0, 1, -v) for i, v in zip(o["inputs"], o["vals"])]))
+    return f"mkscase {cnat(cid)} {clist([cfg['theta']['u'], cfg['theta']['v']], cq)} {cq(cfg['a'])} {cq(cfg['b'])} {clist(terms, str)} {cq(val)} {clist(grad, cq)}"
+
+
+def sys_jsonable(cfg, masks):
+    pj = lambda p: [[list(k), v] for k, v in sorted(p.items())]
+    out = dict(cfg, P={k: pj(p) for k, p in cfg["P"].items()}, q=pj(cfg["q"]), masks=masks, what="system")
+    if "icp" in cfg:
+        out["icp"] = {k: pj(p) for k, p in cfg["icp"].items()}
+    return out
+
+
+def sys_unjson(c):
+    pu = lambda p: {tuple(k): v for k, v in p}
+    out = dict(c, P={k: pu(p) for k, p in c["P"].items()}, q=pu(c["q"]))
+    if "icp" in c:
+        out["icp"] = {k: pu(p) for k, p in c["icp"].items()}
+    return out, c["masks"]
+
+
+def sys_oracle(cfg, masks, grad, val):
+    """per (unknown, term): the term alone (other weights 0) is differentiated with everything selected;
+    the gradient of the total must be the sum over the selected (term, group) pairs"""
+    fails = []
+    full = {k: {t: [True, True, True] for t in SYS_TERMS} for k in "uv"}
+    zero = lambda: dict(dyn_loss=0.0, initial_condition={k: 0.0 for k in "uv"}, observations={k: 0.0 for k in "uv"})
+    exp = [0.0] * 4
+    v_all, _ = sys_evaluate(cfg, full)
+    if abs(v_all - val) > 1e-12 * (1 + abs(val)):
+        fails.append(f"the system loss value depends on the derivative specification ({val} vs {v_all})")
+    w1 = zero(); w1["dyn_loss"] = cfg["w"]["dyn_loss"]
+    _, gd = sys_evaluate(dict(cfg, w=w1), full)
+    exp[0] += gd[0]; exp[1] += gd[1]                     # the dynamic terms use the default keys: network parameters only
+    for k in "uv":
+        for t in SYS_TERMS:
+            w1 = zero(); w1[t][k] = cfg["w"][t][k]
+            _, gt = sys_evaluate(dict(cfg, w=w1), full)
+            sel = masks[k][t]
+            for gi, on in enumerate([sel[0], sel[0], sel[1], sel[2]]):
+                if on:
+                    exp[gi] += gt[gi]
+    for gi, nm in enumerate(["nn_params[u]", "nn_params[v]", "eq_params[a]", "eq_params[b]"]):
+        if abs(exp[gi] - grad[gi]) > 1e-9 * (1 + abs(exp[gi])):
+            fails.append(f"system loss: gradient w.r.t. {nm} is {grad[gi]}, the sum of the selected terms' gradients is {exp[gi]}")
+    return fails
+
+
+def sys_generate(tier, rng, casedir, variant, viol, dist, samples):
+    cases, meta = [], {}
+    cid = 0
+    for kind in ("sys_ode", "sys_nonstatio"):
+        N = 10 if tier == "quick" else 80
+        cfg = sys_problem(rng, kind)
+        for j in range(N):
+            if j % 5 == 4:
+                cfg = sys_problem(rng, kind)
+            masks = {k: {t: [rng.random() < 0.5 for _ in range(3)] for t in SYS_TERMS} for k in "uv"}
+            if j == 0:
+                masks = {"u": {t: [True, True, False] for t in SYS_TERMS}, "v": {t: [False, False, True] for t in SYS_TERMS}}      # the two unknowns differ in every entry
+            try:
+                val, grad = sys_evaluate(cfg, masks)
+            except Exception as ex:
+                viol.append({"detail": f"system evaluate raised {type(ex).__name__}: {str(ex)[:200]}", "case": sys_jsonable(cfg, masks)}); continue
+            cases.append(sys_case_term(cid, cfg, masks, val, grad)); meta[f"s{cid}"] = sys_jsonable(cfg, masks)
+            if j % 5 == 0:
+                for f in sys_oracle(cfg, masks, grad, val):
+                    viol.append({"detail": f, "case": sys_jsonable(cfg, masks)})
+            dist[kind] = dist.get(kind, 0) + 1
+            if len(samples) < 3 and j == 0 and kind == "sys_ode":
+                samples.append(dict(kind=kind, masks=masks, value=val, grad=grad))
+            cid += 1
+    return cases, meta
+
+
 def generate(tier, seed, casedir, variant):
     rng = random.Random(seed)
     cases, meta, viol, samples, dist = [], {}, [], [], {}
@@ -219,8 +371,12 @@ def generate(tier, seed, casedir, variant):
             cid += 1
     viol += string_forms_oracle(rng)
     write_cases(casedir, "C06", "R_C06", variant, cases, chunk=150)
+    scases, smeta = sys_generate(tier, rng, casedir, variant, viol, dist, samples)
+    write_cases(casedir, "C06sys", "R_C06", variant, scases, chunk=150, ctype="scase", summary="ssummary")
+    # ids of the system files are local to them: the driver looks them up as "s<id>" when the file name says so
+    meta.update(smeta); cases = cases + scases
     return dict(meta=meta, oracle_violations=viol, evaluations=len(cases), distinct_nontrivial=len(nontrivial), samples=samples, distribution=dist,
-                rule="assignments of {selected, not selected} to every (loss term, parameter group) pair, groups = network parameters, eq_params[a], eq_params[b] (all 512 for the ODE loss in the thorough tier, random ones otherwise, the default always included), on random polynomial problems; jax.grad of the total and the value compared with the symbolic masked total; non-trivial = non-zero gradient; distinct by (loss kind, assignment); plus string / default / rejection checks",
+                rule="assignments of {selected, not selected} to every (loss term, parameter group) pair, groups = network parameters, eq_params[a], eq_params[b] (all 512 for the ODE loss in the thorough tier, random ones otherwise, the default always included), on random polynomial problems; jax.grad of the total and the value compared with the symbolic masked total; non-trivial = non-zero gradient; distinct by (loss kind, assignment); plus string / default / rejection checks; plus two-unknown system losses (ODE and non-stationary PDE) whose per-unknown derivative keys differ, groups = nn_params[u], nn_params[v], eq_params[a], eq_params[b]",
                 oracle_checks=len(cases) // 7 + 1, exhaustive=False)
 
 
@@ -228,6 +384,12 @@ def replay(rep, casedir, variant):
     c = rep["case"]
     if c.get("what") == "strings":
         return dict(meta={}, oracle_violations=string_forms_oracle(random.Random(0)), evaluations=1, distinct_nontrivial=1, rule="replay", samples=[c])
+    if c.get("what") == "system":
+        cfg, masks = sys_unjson(c)
+        val, grad = sys_evaluate(cfg, masks)
+        write_cases(casedir, "C06sys", "R_C06", variant, [sys_case_term(0, cfg, masks, val, grad)], ctype="scase", summary="ssummary")
+        return dict(meta={"s0": c}, oracle_violations=[{"detail": f, "case": c} for f in sys_oracle(cfg, masks, grad, val)], evaluations=1,
+                    distinct_nontrivial=1, rule="replay", samples=[c])
     cfg, masks = unjson(c)
     val, grad, terms = evaluate(cfg, masks)
     write_cases(casedir, "C06", "R_C06", variant, [case_term(0, cfg, masks, val, grad)])
